@@ -233,3 +233,91 @@ func (c *checkCtx) registryTask() {
 		"assumed, not checked: sync.RWMutex provides mutual exclusion and the happens-before edges of the Go memory model; one critical section per operation with exclusive writers implies the operation is atomic at its acquisition, hence linearizable w.r.t. the sequential specification; Algorithm() of a service is pure and stable. No interleaving is enumerated.")
 }
 
+
+// registryInit: the package initialiser of codec registers the four built-in services under their names
+// (this is what the assumption registry_default of the frame encoders rests on).
+func (c *checkCtx) registryInit() {
+	V := c.V
+	pkgPath := modPath + "/codec"
+	p := V.pkgs[pkgPath]
+	type reg struct {
+		key string
+		typ types.Type
+	}
+	var regs []reg
+	hook := func(x *Exec, st *State, o *Obj, k Value, bv *Term, val Value) {
+		ks, ok := k.(VStr)
+		if !ok {
+			return
+		}
+		name, isConst := termString(ks.T)
+		if !isConst {
+			name = "?" + ks.T.Key()
+		}
+		var t types.Type
+		if b, ok := val.(VBox); ok {
+			t = b.Type
+		}
+		regs = append(regs, reg{name, t})
+	}
+	V.initHooks = append(V.initHooks, hook)
+	defer func() { V.initHooks = V.initHooks[:len(V.initHooks)-1] }()
+	ran := 0
+	for name, mem := range p.Members {
+		fn, ok := mem.(*ssa.Function)
+		if !ok || !strings.HasPrefix(name, "init#") || len(fn.Blocks) == 0 {
+			continue
+		}
+		ran++
+		x := V.newExec(fn, nil, Subst{}, "codec."+fn.Name(), "init")
+		x.emitSafe = true
+		x.noAcqLimit = true
+		x.props = []string{c.prop}
+		st := x.initialState()
+		// the registry map starts empty (package-level initialiser `cache: make(map[string]any)`)
+		if g, ok := p.Members["checksumServiceContext"].(*ssa.Global); ok {
+			o := V.globalObj(st, x, g)
+			if ptr, ok := st.get(o).Val.(VPtr); ok && ptr.Obj != nil && ptr.Obj.Kind == "struct" {
+				stt := ptr.Obj.Type.Underlying().(*types.Struct)
+				for i := 0; i < stt.NumFields(); i++ {
+					if _, isMap := stt.Field(i).Type().Underlying().(*types.Map); isMap {
+						mv := x.load(st, VFieldPtr{Obj: ptr.Obj, Idx: i}, nil, stt.Field(i).Type())
+						if m, ok := mv.(VMap); ok && m.Obj != nil {
+							m0 := FreshInt("emptymap")
+							kq := Var("k!e", SInt)
+							st.assume(Forall([]*Term{kq}, Not(mdom(m0, kq)), mdom(m0, kq)))
+							st.mut(m.Obj).MV = m0
+						}
+					}
+				}
+			}
+		}
+		x.old = st.clone()
+		x.onReturn = func(s *State, r []Value) {}
+		x.execAll(st)
+		c.obs = append(c.obs, x.obs...)
+	}
+	if ran == 0 {
+		c.obs = append(c.obs, &Obligation{Name: "codec.init/present", Kind: "contract", Props: []string{c.prop}, Goal: False, Detail: "package codec has an init function that registers the built-in services"})
+	}
+	var names []string
+	for n := range V.serviceTypes() {
+		names = append(names, n)
+	}
+	sort.Strings(names)
+	for _, n := range names {
+		want := V.serviceTypes()[n]
+		ok := false
+		got := "not registered"
+		for _, r := range regs {
+			if r.key == n {
+				got = fmt.Sprint(r.typ)
+				if nt := namedOf(r.typ); nt == want {
+					ok = true
+				}
+			}
+		}
+		c.obs = append(c.obs, &Obligation{Name: fmt.Sprintf("codec.init/registers(%s)", n), Func: "codec.init", Kind: "ensures", Props: []string{c.prop}, Goal: BoolC(ok),
+			Detail: fmt.Sprintf("init registers %s under the name its Algorithm() returns (found: %s)", want.Obj().Name(), got)})
+	}
+}
